@@ -69,6 +69,26 @@ Theorem C18_date_algorithm_counts_days :
   exists y m0 d, date_part (n - 11017) = Ok (y, m0, d) /\ civil n = mkC y (m0 + 1) d.
 Proof. exact date_part_counts_days. Qed.
 
+(* stronger than the property needs: for EVERY integer day count D relative to 2000-03-01 (negative = earlier, proleptic
+   Gregorian calendar; no upper bound), the algorithm's date for D+1 is next_day of its date for D; anchored at
+   D = -11017 (1970-01-01).  Together these determine date_part on all of Z. *)
+Theorem C18_date_algorithm_steps_by_next_day :
+  (forall D : Z, exists r r', date_part D = Ok r /\ date_part (D + 1) = Ok r' /\
+                              (let '(y, m0, d) := r' in mkC y (m0 + 1) d) =
+                              next_day (let '(y, m0, d) := r in mkC y (m0 + 1) d))
+  /\ date_part (-11017) = Ok (1970, 0, 1).
+Proof. exact (conj date_part_step (proj1 date_part_anchor)). Qed.
+
+(* panic-freedom on the whole i64 domain: the only panic site that can fire is the debug-build overflow of
+   `timestamp - MARCH_01_2000` (t < i64::MIN + 951868800); the month-loop index and the DAYS/MONTHS indexing in
+   to_string are always in range. *)
+Theorem C18_date_no_panic_except_subtraction_overflow :
+  forall t, i64_min <= t <= i64_max ->
+  (t < i64_min + MARCH_01_2000 /\ from_timestamp t = Crash 1) \/
+  (i64_min + MARCH_01_2000 <= t /\ exists d s, from_timestamp t = Ok d /\ to_string d = Ok s /\
+     0 <= dt_month d <= 11 /\ 0 <= dt_weekday d <= 6).
+Proof. exact from_timestamp_total. Qed.
+
 (* format_imf_shape: in the same range to_string yields exactly the RFC 7231 IMF-fixdate of those values —
    day-name "," SP 2DIGIT SP month SP 4DIGIT SP 2DIGIT ":" 2DIGIT ":" 2DIGIT SP "GMT", 29 bytes *)
 Theorem C18_date_format_imf_shape :
@@ -137,6 +157,8 @@ Print Assumptions C18_date_civil_valid.
 Print Assumptions C18_date_correct.
 Print Assumptions C18_date_correct_to_u16_limit.
 Print Assumptions C18_date_algorithm_counts_days.
+Print Assumptions C18_date_algorithm_steps_by_next_day.
+Print Assumptions C18_date_no_panic_except_subtraction_overflow.
 Print Assumptions C18_date_format_imf_shape.
 Print Assumptions C18_date_imf_fixdate_layout.
 Print Assumptions C18_date_format_fields_decimal.
